@@ -1085,7 +1085,7 @@ func main() {
 	for _, c := range exhaustiveTS() {
 		runCase(r, 0, c)
 	}
-	nTV, nTS := 1200*r.Scale, 500*r.Scale
+	nTV, nTS := 6000*r.Scale, 2500*r.Scale
 	for i := 0; i < nTV; i++ {
 		rng, sub := r.Rng.Fork()
 		runCase(r, sub, genTV(rng))
